@@ -833,6 +833,17 @@ func (env *Env) call(n *ast.CallExpr) TV {
 			return TV{T: strings.ReplaceAll(body, bv, sk), Ty: boolT}
 		}
 		return TV{T: fmt.Sprintf("(forall ((%s Iface)) %s)", bv, body), Ty: boolT}
+	case "ishandler": // dynamic type of m implements p9.handler
+		v := env.eval(n.Args[0])
+		it := env.lookupType("p9.handler")
+		if it == nil {
+			return env.fail("no handler interface")
+		}
+		return TV{T: env.e.implPred(it, "(i.type "+v.T+")"), Ty: boolT}
+	case "closed": // channel has been closed
+		v := env.eval(n.Args[0])
+		c.DeclComp("$closed", "(Array Int Bool)")
+		return TV{T: sel(c.Get(env.st, "$closed"), v.T), Ty: boolT}
 	case "arr": // backing array identity of a slice (mathint)
 		v := env.eval(n.Args[0])
 		return TV{T: "(s.arr " + v.T + ")", Ty: ghostIntType}
